@@ -114,6 +114,23 @@ def run(rep: Report, tier: str) -> None:
 				# triage keys name the function, the kind of test and the alias-expanded receiver (not the local spelling of the expression)
 				xk = f'{rel}:{q}:{s.kind}:{Expander(f).src(s.recv) if s.recv is not None else ""}'
 				ex = next((k for k in EXEMPT if xk == k or (k.count(':') == 1 and xk.startswith(k + ':'))), None)
+				if ex is None and f.cls is not None and f.name.startswith('_') and not f.name.endswith('__') and isinstance(s.recv, ast.Name) and s.recv.id in f.params():
+					# a test moved into a private helper keeps the triage of the methods it was extracted from: the receiver is the helper's parameter,
+					# so the key is rebuilt at every call site with the (alias-expanded) argument
+					pos = [a.arg for a in f.node.args.posonlyargs + f.node.args.args]
+					pos = pos[1:] if pos and pos[0] in ('self', 'cls') else pos
+					ckeys = []
+					for defs_ in f.cls.methods.values():
+						for g in defs_:
+							if g is f:
+								continue
+							for c_ in ast.walk(g.node):
+								if isinstance(c_, ast.Call) and isinstance(c_.func, ast.Attribute) and c_.func.attr == f.name and isinstance(c_.func.value, ast.Name) and c_.func.value.id in ('self', 'cls'):
+									i_ = pos.index(s.recv.id) if s.recv.id in pos else -1
+									arg = c_.args[i_] if 0 <= i_ < len(c_.args) else next((kw.value for kw in c_.keywords if kw.arg == s.recv.id), None)
+									ckeys.append(f'{rel}:{g.qualname}:{s.kind}:{Expander(g).src(arg) if arg is not None else "?"}')
+					if ckeys and all(k in EXEMPT for k in ckeys):
+						ex = ckeys[0]
 				if ex is not None:
 					used.add(ex)
 					r.ok(s.key, where, message=f'exempt: {EXEMPT[ex]}', fragment=s.text)
